@@ -121,6 +121,11 @@ class Folder:
             if x[0] == "agg" and x[1] == "adt":
                 adt = self.prog.adts.get(x[2])
                 return _c(adt["variants"][x[5]]["discr"] if adt else x[5])
+            if x[0] == "const" and isinstance(x[1], tuple):
+                d = dict(i for i in x[1] if isinstance(i, tuple) and len(i) == 2)
+                if "vidx" in d and "adt" in d:
+                    adt = self.prog.adts.get(d["adt"])
+                    return _c(adt["variants"][d["vidx"]]["discr"] if adt else d["vidx"])
             raise Unknown("discr " + pp(t))
         if k == "un":
             x = self.ev(t[2], env, bind, depth)
@@ -554,7 +559,17 @@ def _eq_model(neg):
     return f
 
 
+def _clone(self, args):
+    a = args[0]
+    return a[1] if a[0] == "ref" else a       # Clone of a folded (Copy-like) value is the value
+
+
 STD_MODELS = {
+    "<std::option::Option<T> as std::clone::Clone>::clone": _clone,
+    "std::clone::Clone::clone": _clone,
+    "std::clone::impls::<impl std::clone::Clone for i32>::clone": _clone,
+    "std::clone::impls::<impl std::clone::Clone for i64>::clone": _clone,
+    "std::clone::impls::<impl std::clone::Clone for u32>::clone": _clone,
     "<std::option::Option<T> as std::cmp::PartialEq>::eq": _eq_model(False),
     "<std::option::Option<T> as std::cmp::PartialEq>::ne": _eq_model(True),
     "<weekday::Weekday as std::cmp::PartialEq>::eq": _eq_model(False),
@@ -599,6 +614,7 @@ for _b in (8, 16, 32, 64):
         STD_MODELS[_p + "div_euclid"] = lambda self, args: _c((_ints(args)[0] - _ints(args)[0] % abs(_ints(args)[1])) // _ints(args)[1])
         STD_MODELS[_p + "abs"] = (lambda ty: lambda self, args: _c(wrap(abs(_ints(args)[0]), ty)))(_t)
         STD_MODELS[_p + "unsigned_abs"] = lambda self, args: _c(abs(_ints(args)[0]))
+        STD_MODELS[_p + "abs_diff"] = lambda self, args: _c(abs(_ints(args)[0] - _ints(args)[1]))
         STD_MODELS[_p + "signum"] = lambda self, args: _c((_ints(args)[0] > 0) - (_ints(args)[0] < 0))
         STD_MODELS[_p + "checked_add"] = (lambda ty: lambda self, args: _checked(lambda a, b: a + b)(self, args, ty))(_t)
         STD_MODELS[_p + "checked_sub"] = (lambda ty: lambda self, args: _checked(lambda a, b: a - b)(self, args, ty))(_t)
